@@ -65,7 +65,7 @@ Faithful(e, doc, g) ==
        scoreBad == \E k \in 1..Len(e.out.scores) : ScoreKeys[k] \in ks /\ e.out.scores[k] >= 0 /\
                       ~(IsNumber(dm[ScoreKeys[k]]) /\ Tenths(dm[ScoreKeys[k]][3]) = e.out.scores[k])
        sevBad == \E k \in 1..Len(e.out.sev) : SevKeys[k] \in ks /\ e.out.scores[k] >= 0 /\
-                      ~(dm[SevKeys[k]][2] = "str" /\ Upper(dm[SevKeys[k]][3]) = Upper(e.out.sev[k]))
+                      ~(dm[SevKeys[k]][2] = "str" /\ Upper(dm[SevKeys[k]][3]) = Upper(Band(ver, e.out.scores[k])))
        known == KnownKeys(ver)
    IN IF dup THEN "duplicate-key"
       ELSE IF "version" \notin ks THEN "version"
